@@ -119,6 +119,9 @@ pub struct Case {
     /// run every distinct substring of the text (and each with one more byte) as a pattern
     #[serde(default)]
     all_pats: bool,
+    /// do not cap repetitive texts (only generated for cells that build with SA-IS)
+    #[serde(default)]
+    long: bool,
 }
 
 fn yes() -> bool {
@@ -264,7 +267,7 @@ impl Case {
             Some(Text::Raw(b)) => (b.0.clone(), "Raw".to_string()),
             Some(Text::Gen { shape, len, seed }) => {
                 // comparison-sort based constructions are quadratic on repetitive texts
-                let cap = if repetitive(*shape) { if tier == Tier::Quick { 12_000 } else { 20_000 } } else { usize::MAX };
+                let cap = if repetitive(*shape) && !self.long { if tier == Tier::Quick { 12_000 } else { 20_000 } } else { usize::MAX };
                 (expand(*shape, (*len).min(cap), *seed), format!("{:?}", shape))
             }
         };
@@ -1194,7 +1197,7 @@ fn case_strategy(max_len: usize, big: bool, tier: Tier) -> BoxedStrategy<Case> {
         (any::<bool>(), any::<bool>(), prop_oneof![4 => Just(true), 1 => Just(false)], 0u8..3, any::<u8>()),
         proptest::collection::vec(pat_strategy(), 1..=6),
     )
-        .prop_map(|(text, term, algo, (par, par_low, small_alpha, thr, knob), pats)| Case { text: Some(text), term, algo, par, par_low, small_alpha, thr, knob, pats, all_pats: false })
+        .prop_map(|(text, term, algo, (par, par_low, small_alpha, thr, knob), pats)| Case { text: Some(text), term, algo, par, par_low, small_alpha, thr, knob, pats, all_pats: false, long: false })
         .boxed()
 }
 
@@ -1286,7 +1289,7 @@ impl Prop for P {
                 any::<bool>(),
                 proptest::collection::vec(pat_strategy(), 1..=3),
             )
-                .prop_map(|(text, term, pats)| Case { text: Some(text), term, algo: 0, par: false, par_low: false, small_alpha: true, thr: 2, knob: 0, pats, all_pats: false })
+                .prop_map(|(text, term, pats)| Case { text: Some(text), term, algo: 0, par: false, par_low: false, small_alpha: true, thr: 2, knob: 0, pats, all_pats: false, long: true })
                 .boxed()
         };
         for cell in ["lcp_array", "enhanced_lcp", "enhanced_bwt", "compressor_dictionary", "compressor_large_text"] {
